@@ -389,7 +389,11 @@ func vBuildPacket(r *rand.Rand) (p *Packet) {
 	p = NewPacket(uint8(r.Intn(256)), r.Uint32(), vPick(r, uint32(0), uint32(1), ^uint32(0), r.Uint32()), vPick(r, 0, 1, 8, 1000, 1<<31-1, r.Intn(1<<20)))
 	if vChance(r, 0.5) {
 		rate := vPick(r, 1e9, 256e6, 125e6, 1e6, 3.3e8)
-		p.SetTimestamp(MakeTimestamp(uint16(r.Intn(65536)), r.Uint32(), rate))
+		if vChance(r, 0.5) {
+			p.SetTimestamp(MakeTimestamp(uint16(r.Intn(65536)), r.Uint32(), rate))
+		} else { // the full 64-bit counter range
+			p.SetTimestamp(&PacketTimestamp{T: vPick(r, r.Uint64(), ^uint64(0), uint64(1)<<48, uint64(1)<<63), Rate: rate})
+		}
 	}
 	ndim := vPick(r, 1, 1, 1, 2, 3, 4)
 	dims := make([]int16, ndim)
